@@ -21,7 +21,7 @@ import (
 	"verif/engine/sched/vtime"
 )
 
-const scratch = "/verif/.scratch"
+var scratch = scratchDir()
 
 type call struct {
 	Op   string // save | load | loadbyaddr
@@ -391,4 +391,11 @@ func main() {
 	out, _ := json.Marshal(map[string]any{"coverage": cov, "viols": viols})
 	fmt.Printf("KS-RESULT %s\n", out)
 	_ = hex.EncodeToString
+}
+
+func scratchDir() string {
+	if s := os.Getenv("VERIF_OUT"); s != "" {
+		return s + "/.scratch"
+	}
+	return "/verif/.scratch"
 }
